@@ -109,6 +109,9 @@ def gen_obj(rnd, idx):
         return out
 
     decl_text = "".join(c.text() for c in classes)
+    # predicates with an object-typed parameter: passing a variable of a supertype narrows the variable to the parameter's type and binds it
+    for c in classes:
+        decl_text += "predicate N_%s(%s a) {\n}\n" % (c.name, c.name)
     for e, (vals, incl) in enums.items():
         decl_text += "enum %s {%s}%s;\n" % (e, ", ".join('"%s"' % v for v in vals), "".join(" | " + x for x in incl))
     # statements: instances and variables interleaved
@@ -119,6 +122,7 @@ def gen_obj(rnd, idx):
     field_vars = {}
     nsteps = rnd.randint(3, 9)
     ni = nv = 0
+    atoms = {}          # fact name -> {'a': ('var', variable)}
 
     def construct(cls, args, inst_name, fields_out):
         """mirror of constructor::invoke: supertypes first (explicit args or default), then own init list, then remaining fields"""
@@ -186,6 +190,25 @@ def gen_obj(rnd, idx):
             construct(cl, args, name, fields)
             instances.append((name, cl, fields))
             stmts.append("%s %s = new %s(%s);" % (cl.name, name, cl.name, ", ".join(targs)))
+        elif c < 0.68 and variables:
+            # fact on a predicate whose parameter is of a (proper or improper) subtype of the variable's type
+            objv = [v for v, d in variables.items() if d["kind"] == "obj" and len(d["domain"]) > 1]
+            if not objv:
+                continue
+            v = rnd.choice(objv)
+            vt = [cl for cl in classes if cl.name == variables[v]["type"]][0]
+            subs = [cl for cl in classes if vt in cl.ancestors() and any(i in by_cls[cl.name] for i in variables[v]["domain"])]
+            if not subs:
+                continue
+            t = rnd.choice(subs)
+            fname = "f%d" % nv
+            nv += 1
+            variables[v]["domain"] = [i for i in variables[v]["domain"] if i in by_cls[t.name]]
+            atoms[fname] = {"a": ("var", v)}
+            stmts.append("fact %s = new N_%s(a:%s);" % (fname, t.name, v))
+            if len(variables[v]["domain"]) == 1:
+                # the variable is a constant from here on: the solution exposes the instance itself
+                pass
         elif c < 0.85:
             cands = [cl for cl in classes if by_cls[cl.name]]
             if not cands:
@@ -228,6 +251,14 @@ def gen_obj(rnd, idx):
             op = rnd.choice(["eq", "neq", "neq"])
             l, r = (a, b) if rnd.random() < 0.5 else (b, a)
             cons.append((op, ("id", [l]), ("id", [r])))
+        elif c < 0.55 and atoms:
+            # the parameter of a fact is the variable that was passed
+            f = rnd.choice(sorted(atoms))
+            v = atoms[f]["a"][1]
+            insts = [i for i in inst_names if assignable(variables[v]["type"], cls_of[i].name)]
+            if not insts:
+                continue
+            cons.append((rnd.choice(["eq", "neq"]), ("id", [f, "a"]), ("id", [rnd.choice(insts)])))
         elif c < 0.6 and len(envars) >= 2:
             a, b = rnd.sample(envars, 2)
             cons.append((rnd.choice(["eq", "neq"]), ("id", [a]), ("id", [b])))
@@ -244,7 +275,7 @@ def gen_obj(rnd, idx):
     body = stmts + [pr.expr(e) + ";" for e in cons]
     text = decl_text + "\n".join(body) + "\n"
     return {"family": "obj", "id": "obj-%d" % idx, "text": text, "classes": classes, "enums": enums, "instances": instances, "variables": variables,
-            "field_vars": field_vars, "cons": cons, "by_cls": by_cls}
+            "field_vars": field_vars, "cons": cons, "by_cls": by_cls, "atoms": atoms}
 
 
 def solutions(case, limit=20000):
@@ -260,6 +291,7 @@ def solutions(case, limit=20000):
     if total > limit:
         return None
     inst = {n: f for n, c, f in case["instances"]}
+    inst.update(case.get("atoms", {}))
     sols = []
     for tup in itertools.product(*doms):
         asg = dict(zip(names, tup))
@@ -273,15 +305,30 @@ def solutions(case, limit=20000):
                 elif isinstance(v, tuple) and v[0] == "var":
                     cur = asg[v[1]]
                 elif isinstance(v, tuple) and v[0] == "free":
-                    return ("free",)
+                    return ("free", cur, f)
                 else:
                     return v
             return cur
         ok = True
+        free_bounds = {}     # (instance, field) -> [lo, lo strict, hi, hi strict]: a free numeric field only has to admit SOME value
         for op, l, r in case["cons"]:
             a = resolve(l[1]) if l[0] == "id" else l[1]
             b = resolve(r[1]) if r[0] == "id" else r[1]
-            if a == ("free",) or b == ("free",):
+            fa = isinstance(a, tuple) and a[0] == "free"
+            fb = isinstance(b, tuple) and b[0] == "free"
+            if fa and fb:
+                continue        # not generated (a field is only compared with constants)
+            if fa or fb:
+                key, k = (a[1:], b) if fa else (b[1:], a)
+                o = op if fa else {"lt": "gt", "gt": "lt", "leq": "geq", "geq": "leq"}.get(op, op)
+                bd = free_bounds.setdefault(key, [None, False, None, False])
+                if o in ("geq", "gt", "eq") and (bd[0] is None or k > bd[0] or (k == bd[0] and o == "gt")):
+                    bd[0], bd[1] = k, o == "gt"
+                if o in ("leq", "lt", "eq") and (bd[2] is None or k < bd[2] or (k == bd[2] and o == "lt")):
+                    bd[2], bd[3] = k, o == "lt"
+                if bd[0] is not None and bd[2] is not None and (bd[0] > bd[2] or (bd[0] == bd[2] and (bd[1] or bd[3]))):
+                    ok = False
+                    break
                 continue
             res = {"eq": a == b, "neq": a != b, "lt": a < b, "leq": a <= b, "geq": a >= b, "gt": a > b}[op] if not (isinstance(a, str) != isinstance(b, str)) else (op == "neq")
             if not res:
